@@ -29,6 +29,8 @@ import (
 	"github.com/lorenzodonini/ocpp-go/ocpp"
 	ocpp16 "github.com/lorenzodonini/ocpp-go/ocpp1.6"
 	core16 "github.com/lorenzodonini/ocpp-go/ocpp1.6/core"
+	ocpp2 "github.com/lorenzodonini/ocpp-go/ocpp2.0.1"
+	data2 "github.com/lorenzodonini/ocpp-go/ocpp2.0.1/data"
 	"github.com/lorenzodonini/ocpp-go/ocppj"
 	"github.com/lorenzodonini/ocpp-go/ws"
 
@@ -1590,6 +1592,473 @@ func gatedManyTimeoutsPumpBusy() []int64 {
 	return []int64{0, int64(c), served, b2i(disconnected), b2i(stopped)}
 }
 
+// callOnlyID is callID for CALL frames (message type 2) and -4 for anything else.
+func callOnlyID(frame []byte) int64 {
+	var arr []json.RawMessage
+	var typ int
+	if json.Unmarshal(frame, &arr) != nil || len(arr) < 2 || json.Unmarshal(arr[0], &typ) != nil || typ != 2 {
+		return -4
+	}
+	return callID(frame)
+}
+
+// scenario 33 (C02, C09): the peer answers the outstanding CALL with a CALL_RESULT whose payload is unusable (right id,
+// wrong type).  The CALL stays outstanding until it is concluded by its timeout: it is never written a second time,
+// neither after the timeout when the next request follows (server) nor after a disconnection and reconnection (client).
+func gatedMalformedAnswer() []int64 {
+	installIDGen()
+	bad := int64(0)
+	{ // server role
+		fake := fakews.NewServer()
+		disp := ocppj.NewDefaultServerDispatcher(ocppj.NewFIFOQueueMap(0))
+		disp.SetTimeout(150 * time.Millisecond)
+		srv := ocppj.NewServer(fake, disp, nil, core16.Profile)
+		srv.SetDialect(ocpp.V16)
+		srv.SetResponseHandler(func(c ws_Channel, r ocpp.Response, id string) {})
+		srv.SetErrorHandler(func(c ws_Channel, e *ocpp.Error, d interface{}) {})
+		srv.SetRequestHandler(func(c ws_Channel, r ocpp.Request, id, action string) {})
+		var mu sync.Mutex
+		cancelled := []string{}
+		srv.SetCanceledRequestHandler(func(clientID string, requestID string, r ocpp.Request, e *ocpp.Error) {
+			mu.Lock()
+			cancelled = append(cancelled, requestID)
+			mu.Unlock()
+		})
+		go srv.Start(0, "/{ws}")
+		if !waitFor(2*time.Second, disp.IsRunning) {
+			return []int64{-2}
+		}
+		fake.Connect("A")
+		setNextID("901")
+		_ = srv.SendRequest("A", core16.NewDataTransferRequest("a1"))
+		count := func(id int64) int {
+			return fake.CountWritten(func(t string, d []byte) bool { return t == "A" && callOnlyID(d) == id })
+		}
+		if !waitFor(2*time.Second, func() bool { return count(901) >= 1 }) {
+			return []int64{-8}
+		}
+		_ = fake.Inject("A", []byte(`[3,"901",{"status":12}]`))
+		waitFor(2*time.Second, func() bool { mu.Lock(); defer mu.Unlock(); return len(cancelled) >= 1 }) // the timeout concludes it
+		setNextID("902")
+		_ = srv.SendRequest("A", core16.NewDataTransferRequest("a2"))
+		waitFor(2*time.Second, func() bool { return count(902) >= 1 })
+		setNextID("903")
+		_ = srv.SendRequest("A", core16.NewDataTransferRequest("a3"))
+		time.Sleep(60 * time.Millisecond)
+		mu.Lock()
+		nc := len(cancelled)
+		mu.Unlock()
+		if !(count(901) == 1 && count(902) == 1 && nc >= 1) {
+			bad |= 1
+		}
+		within(2*time.Second, srv.Stop)
+	}
+	{ // client role
+		fake := fakews.NewClient()
+		disp := ocppj.NewDefaultClientDispatcher(ocppj.NewFIFOClientQueue(0))
+		disp.SetTimeout(time.Hour)
+		cl := ocppj.NewClient("cp1", fake, disp, nil, core16.Profile)
+		cl.SetDialect(ocpp.V16)
+		cl.SetResponseHandler(func(r ocpp.Response, id string) {})
+		cl.SetErrorHandler(func(e *ocpp.Error, d interface{}) {})
+		cl.SetRequestHandler(func(r ocpp.Request, id, action string) {})
+		cl.SetOnRequestCanceled(func(id string, r ocpp.Request, e *ocpp.Error) {})
+		if err := cl.Start("ws://fake"); err != nil {
+			return []int64{-2}
+		}
+		setNextID("911")
+		_ = cl.SendRequest(core16.NewDataTransferRequest("v1"))
+		if !waitFor(2*time.Second, clientWrote(fake, 911)) {
+			return []int64{-8, 1}
+		}
+		setNextID("912")
+		_ = cl.SendRequest(core16.NewDataTransferRequest("v2"))
+		_ = fake.Inject([]byte(`[3,"911",{"status":12}]`))
+		time.Sleep(10 * time.Millisecond)
+		within(2*time.Second, func() { fake.Drop() })
+		within(2*time.Second, func() { fake.Reconnect() })
+		time.Sleep(40 * time.Millisecond)
+		n1 := fake.CountWritten(func(d []byte) bool { return callOnlyID(d) == 911 })
+		n2 := fake.CountWritten(func(d []byte) bool { return callOnlyID(d) == 912 })
+		if !(n1 == 1 && n2 == 0) { // 911 is still outstanding: nothing else may be written
+			bad |= 2
+		}
+		within(3*time.Second, cl.Stop)
+	}
+	if bad == 0 {
+		return []int64{1, 0}
+	}
+	return []int64{0, bad}
+}
+
+// scenario 34 (C11, C02, C09): the application's disconnect handler for an ended session is slow; the same id connects
+// again meanwhile and a CALL is written to the new session.  When the old handler finally returns, nothing of the new
+// session may be touched: its reply is accepted and delivered, its request is not written again.
+func gatedSlowDisconnectHandler() []int64 {
+	installIDGen()
+	fake := fakews.NewServer()
+	disp := ocppj.NewDefaultServerDispatcher(ocppj.NewFIFOQueueMap(0))
+	disp.SetTimeout(400 * time.Millisecond)
+	srv := ocppj.NewServer(fake, disp, nil, core16.Profile)
+	var mu sync.Mutex
+	answered := []string{}
+	cancelled := []string{}
+	srv.SetResponseHandler(func(c ws_Channel, r ocpp.Response, id string) {
+		mu.Lock()
+		answered = append(answered, id)
+		mu.Unlock()
+	})
+	srv.SetErrorHandler(func(c ws_Channel, e *ocpp.Error, d interface{}) {})
+	srv.SetRequestHandler(func(c ws_Channel, r ocpp.Request, id, action string) {})
+	srv.SetCanceledRequestHandler(func(clientID string, requestID string, r ocpp.Request, e *ocpp.Error) {
+		mu.Lock()
+		cancelled = append(cancelled, requestID)
+		mu.Unlock()
+	})
+	entered := make(chan struct{}, 4)
+	release := make(chan struct{})
+	var once sync.Once
+	srv.SetDisconnectedClientHandler(func(c ws_Channel) {
+		once.Do(func() { entered <- struct{}{}; <-release })
+	})
+	go srv.Start(0, "/{ws}")
+	if !waitFor(2*time.Second, disp.IsRunning) {
+		return []int64{-2}
+	}
+	fake.Connect("A")
+	go fake.Disconnect("A") // idle session ends; the application's handler is slow
+	select {
+	case <-entered:
+	case <-time.After(2 * time.Second):
+		return []int64{-4}
+	}
+	if !within(2*time.Second, func() { fake.Connect("A") }) {
+		close(release)
+		return []int64{-8, 1}
+	}
+	setNextID("921")
+	_ = srv.SendRequest("A", core16.NewDataTransferRequest("a1"))
+	count := func(id int64) int {
+		return fake.CountWritten(func(t string, d []byte) bool { return t == "A" && callID(d) == id })
+	}
+	if !waitFor(2*time.Second, func() bool { return count(921) >= 1 }) {
+		close(release)
+		return []int64{-8, 2}
+	}
+	close(release) // the handler of the ended session returns only now
+	time.Sleep(30 * time.Millisecond)
+	_ = fake.Inject("A", []byte(`[3,"921",{"status":"Accepted","data":"r"}]`))
+	ok := waitFor(time.Second, func() bool { mu.Lock(); defer mu.Unlock(); return len(answered) >= 1 })
+	setNextID("922")
+	_ = srv.SendRequest("A", core16.NewDataTransferRequest("a2"))
+	waitFor(2*time.Second, func() bool { return count(922) >= 1 })
+	time.Sleep(600 * time.Millisecond) // past the timeout of 921, had it been left outstanding
+	n1, n2 := count(921), count(922)
+	mu.Lock()
+	nc := 0
+	for _, id := range cancelled {
+		if id == "921" {
+			nc++
+		}
+	}
+	mu.Unlock()
+	within(2*time.Second, srv.Stop)
+	if ok && n1 == 1 && n2 == 1 && nc == 0 {
+		return []int64{1, 0}
+	}
+	return []int64{0, b2i(ok), int64(n1), int64(n2), int64(nc)}
+}
+
+// scenario 35 (C07, C11): central system / CSMS: the application callback of a request that timed out blocks (it waits
+// for an exchange with another station, as an application may).  The dispatcher must go on serving the other station:
+// callbacks run on their own, never on the message pump.  Both protocol versions.
+func gatedBlockingCancelCallback() []int64 {
+	installIDGen()
+	bad := int64(0)
+	for variant := 0; variant < 2; variant++ {
+		fake := fakews.NewServer()
+		disp := ocppj.NewDefaultServerDispatcher(ocppj.NewFIFOQueueMap(0))
+		disp.SetTimeout(120 * time.Millisecond)
+		var ep serverSendAPI
+		var mkReq func() ocpp.Request
+		if variant == 0 {
+			cs := ocpp16.NewCentralSystem(ocppj.NewServer(fake, disp, nil, core16.Profile), fake)
+			cs.SetChargePointDisconnectedHandler(func(cp ocpp16.ChargePointConnection) {})
+			ep = cs
+			mkReq = func() ocpp.Request { return core16.NewDataTransferRequest("v") }
+		} else {
+			cs := ocpp2.NewCSMS(ocppj.NewServer(fake, disp, nil, data2.Profile), fake)
+			cs.SetChargingStationDisconnectedHandler(func(cp ocpp2.ChargingStationConnection) {})
+			ep = cs
+			mkReq = func() ocpp.Request { return data2.NewDataTransferRequest("v") }
+		}
+		go ep.Start(0, "/{ws}")
+		if !waitFor(2*time.Second, disp.IsRunning) {
+			return []int64{-2}
+		}
+		fake.Connect("mute")
+		fake.Connect("okst")
+		release := make(chan struct{})
+		entered := make(chan struct{}, 1)
+		setNextID("951")
+		_ = ep.SendRequestAsync("mute", mkReq(), func(conf ocpp.Response, err error) {
+			entered <- struct{}{}
+			<-release // e.g. waits for something that needs the dispatcher
+		})
+		select {
+		case <-entered: // 951 timed out, its callback is running (and stays)
+		case <-time.After(3 * time.Second):
+			bad |= 1 << (2 * variant)
+			close(release)
+			within(2*time.Second, ep.Stop)
+			continue
+		}
+		got := make(chan struct{}, 1)
+		setNextID("952")
+		_ = ep.SendRequestAsync("okst", mkReq(), func(conf ocpp.Response, err error) {
+			if err == nil {
+				got <- struct{}{}
+			}
+		})
+		wrote := waitFor(2*time.Second, func() bool {
+			return fake.CountWritten(func(t string, d []byte) bool { return t == "okst" && callOnlyID(d) == 952 }) >= 1
+		})
+		if wrote {
+			_ = fake.Inject("okst", []byte(`[3,"952",{"status":"Accepted","data":"r"}]`))
+		}
+		answered := false
+		select {
+		case <-got:
+			answered = true
+		case <-time.After(2 * time.Second):
+		}
+		close(release)
+		if !(wrote && answered) {
+			bad |= 2 << (2 * variant)
+		}
+		within(2*time.Second, ep.Stop)
+	}
+	if bad == 0 {
+		return []int64{1, 0}
+	}
+	return []int64{0, bad}
+}
+
+// scenario 36 (C08, C11): a client connects and disconnects without any traffic, then connects again; two CALLs are
+// queued for it and the first is never answered: it is cancelled by its timeout (once, not early) and the second one
+// is written afterwards.  What the dispatcher remembers of the idle session must not disturb the next one.
+func gatedIdleSessionThenTimeout() []int64 {
+	installIDGen()
+	fake := fakews.NewServer()
+	disp := ocppj.NewDefaultServerDispatcher(ocppj.NewFIFOQueueMap(0))
+	disp.SetTimeout(150 * time.Millisecond)
+	srv := ocppj.NewServer(fake, disp, nil, core16.Profile)
+	srv.SetDialect(ocpp.V16)
+	srv.SetResponseHandler(func(c ws_Channel, r ocpp.Response, id string) {})
+	srv.SetErrorHandler(func(c ws_Channel, e *ocpp.Error, d interface{}) {})
+	srv.SetRequestHandler(func(c ws_Channel, r ocpp.Request, id, action string) {})
+	srv.SetDisconnectedClientHandler(func(c ws_Channel) {})
+	var mu sync.Mutex
+	cancelled := []string{}
+	var cancelAt time.Time
+	srv.SetCanceledRequestHandler(func(clientID string, requestID string, r ocpp.Request, e *ocpp.Error) {
+		mu.Lock()
+		cancelled = append(cancelled, requestID)
+		if requestID == "961" {
+			cancelAt = time.Now()
+		}
+		mu.Unlock()
+	})
+	go srv.Start(0, "/{ws}")
+	if !waitFor(2*time.Second, disp.IsRunning) {
+		return []int64{-2}
+	}
+	fake.Connect("A")
+	time.Sleep(5 * time.Millisecond)
+	fake.Disconnect("A") // a session without any request
+	time.Sleep(20 * time.Millisecond)
+	fake.Connect("A")
+	count := func(id int64) int {
+		return fake.CountWritten(func(t string, d []byte) bool { return t == "A" && callOnlyID(d) == id })
+	}
+	setNextID("961")
+	_ = srv.SendRequest("A", core16.NewDataTransferRequest("a1"))
+	setNextID("962")
+	_ = srv.SendRequest("A", core16.NewDataTransferRequest("a2"))
+	if !waitFor(2*time.Second, func() bool { return count(961) >= 1 }) {
+		within(2*time.Second, srv.Stop)
+		return []int64{0, 0}
+	}
+	wroteAt := time.Now()
+	second := waitFor(2*time.Second, func() bool { return count(962) >= 1 })
+	mu.Lock()
+	n := 0
+	for _, id := range cancelled {
+		if id == "961" {
+			n++
+		}
+	}
+	early := n > 0 && cancelAt.Sub(wroteAt) < 100*time.Millisecond
+	mu.Unlock()
+	_ = fake.Inject("A", []byte(`[3,"962",{"status":"Accepted","data":"r"}]`))
+	time.Sleep(20 * time.Millisecond)
+	within(2*time.Second, srv.Stop)
+	if second && n == 1 && !early && count(961) == 1 && count(962) == 1 {
+		return []int64{1, 0}
+	}
+	return []int64{0, b2i(second), int64(n), b2i(early), int64(count(961)), int64(count(962))}
+}
+
+// scenario 37 (C09): replies that do not belong to the outstanding request are discarded silently, whatever their
+// shape: with a request outstanding, a truncated CALL_ERROR and a truncated CALL_RESULT carrying a foreign id arrive.
+// Nothing is written back, no handler fires, and the genuine reply is then accepted.  Both roles.
+func gatedTruncatedForeignReply() []int64 {
+	installIDGen()
+	bad := int64(0)
+	foreign := [][]byte{[]byte(`[4,"zzz9","SomeCode"]`), []byte(`[4,"777",12]`), []byte(`[3,"zzz9",{"status":12}]`), []byte(`[3,"778",7]`), []byte(`[4,"zzz9","SomeCode","descr"]`)}
+	{ // server
+		fake := fakews.NewServer()
+		disp := ocppj.NewDefaultServerDispatcher(ocppj.NewFIFOQueueMap(0))
+		disp.SetTimeout(time.Hour)
+		srv := ocppj.NewServer(fake, disp, nil, core16.Profile)
+		srv.SetDialect(ocpp.V16)
+		var hooks, handlers, answered int32
+		srv.SetInvalidMessageHook(func(c ws_Channel, err *ocpp.Error, raw string, parsed []interface{}) *ocpp.Error {
+			atomic.AddInt32(&hooks, 1)
+			return nil
+		})
+		srv.SetResponseHandler(func(c ws_Channel, r ocpp.Response, id string) { atomic.AddInt32(&answered, 1) })
+		srv.SetErrorHandler(func(c ws_Channel, e *ocpp.Error, d interface{}) { atomic.AddInt32(&handlers, 1) })
+		srv.SetRequestHandler(func(c ws_Channel, r ocpp.Request, id, action string) { atomic.AddInt32(&handlers, 1) })
+		srv.SetCanceledRequestHandler(func(clientID string, requestID string, r ocpp.Request, e *ocpp.Error) { atomic.AddInt32(&handlers, 1) })
+		go srv.Start(0, "/{ws}")
+		if !waitFor(2*time.Second, disp.IsRunning) {
+			return []int64{-2}
+		}
+		fake.Connect("A")
+		setNextID("971")
+		_ = srv.SendRequest("A", core16.NewDataTransferRequest("a1"))
+		if !waitFor(2*time.Second, func() bool {
+			return fake.CountWritten(func(t string, d []byte) bool { return callOnlyID(d) == 971 }) >= 1
+		}) {
+			return []int64{-8}
+		}
+		before := fake.CountWritten(func(string, []byte) bool { return true })
+		for _, f := range foreign {
+			_ = fake.Inject("A", f)
+		}
+		time.Sleep(30 * time.Millisecond)
+		after := fake.CountWritten(func(string, []byte) bool { return true })
+		_ = fake.Inject("A", []byte(`[3,"971",{"status":"Accepted","data":"r"}]`))
+		ok := waitFor(time.Second, func() bool { return atomic.LoadInt32(&answered) == 1 })
+		if !(after == before && atomic.LoadInt32(&hooks) == 0 && atomic.LoadInt32(&handlers) == 0 && ok) {
+			bad |= 1
+		}
+		within(2*time.Second, srv.Stop)
+	}
+	{ // client
+		fake := fakews.NewClient()
+		disp := ocppj.NewDefaultClientDispatcher(ocppj.NewFIFOClientQueue(0))
+		disp.SetTimeout(time.Hour)
+		cl := ocppj.NewClient("cp1", fake, disp, nil, core16.Profile)
+		cl.SetDialect(ocpp.V16)
+		var hooks, handlers, answered int32
+		cl.SetInvalidMessageHook(func(err *ocpp.Error, raw string, parsed []interface{}) *ocpp.Error {
+			atomic.AddInt32(&hooks, 1)
+			return nil
+		})
+		cl.SetResponseHandler(func(r ocpp.Response, id string) { atomic.AddInt32(&answered, 1) })
+		cl.SetErrorHandler(func(e *ocpp.Error, d interface{}) { atomic.AddInt32(&handlers, 1) })
+		cl.SetRequestHandler(func(r ocpp.Request, id, action string) { atomic.AddInt32(&handlers, 1) })
+		cl.SetOnRequestCanceled(func(id string, r ocpp.Request, e *ocpp.Error) { atomic.AddInt32(&handlers, 1) })
+		if err := cl.Start("ws://fake"); err != nil {
+			return []int64{-2}
+		}
+		setNextID("981")
+		_ = cl.SendRequest(core16.NewDataTransferRequest("v1"))
+		if !waitFor(2*time.Second, clientWrote(fake, 981)) {
+			return []int64{-8, 1}
+		}
+		before := fake.CountWritten(func([]byte) bool { return true })
+		for _, f := range foreign {
+			_ = fake.Inject(f)
+		}
+		time.Sleep(30 * time.Millisecond)
+		after := fake.CountWritten(func([]byte) bool { return true })
+		_ = fake.Inject([]byte(`[3,"981",{"status":"Accepted","data":"r"}]`))
+		ok := waitFor(time.Second, func() bool { return atomic.LoadInt32(&answered) == 1 })
+		if !(after == before && atomic.LoadInt32(&hooks) == 0 && atomic.LoadInt32(&handlers) == 0 && ok) {
+			bad |= 2
+		}
+		within(3*time.Second, cl.Stop)
+	}
+	if bad == 0 {
+		return []int64{1, 0}
+	}
+	return []int64{0, bad}
+}
+
+// scenario 38 (C11, C01): central system: the application's disconnect handler sends a request to the client whose
+// session has just ended.  It is refused (nothing of the ended session is left to queue it on) and its callback never
+// fires; after the same id has connected again, a request is answered at its own callback.
+func gatedServerSendFromDisconnectHandler() []int64 {
+	installIDGen()
+	fake := fakews.NewServer()
+	disp := ocppj.NewDefaultServerDispatcher(ocppj.NewFIFOQueueMap(0))
+	disp.SetTimeout(time.Hour)
+	cs := ocpp16.NewCentralSystem(ocppj.NewServer(fake, disp, nil, core16.Profile), fake)
+	var mu sync.Mutex
+	refused := int64(-1)
+	strayCalls := 0
+	cs.SetChargePointDisconnectedHandler(func(cp ocpp16.ChargePointConnection) {
+		setNextID("991")
+		err := cs.SendRequestAsync(cp.ID(), core16.NewDataTransferRequest("late"), func(conf ocpp.Response, err error) {
+			mu.Lock()
+			strayCalls++
+			mu.Unlock()
+		})
+		mu.Lock()
+		refused = b2i(err != nil)
+		mu.Unlock()
+		time.Sleep(10 * time.Millisecond)
+	})
+	go cs.Start(0, "/{ws}")
+	if !waitFor(2*time.Second, disp.IsRunning) {
+		return []int64{-2}
+	}
+	fake.Connect("A")
+	if !within(3*time.Second, func() { fake.Disconnect("A") }) {
+		return []int64{-8}
+	}
+	time.Sleep(20 * time.Millisecond)
+	fake.Connect("A")
+	got := ""
+	calls := 0
+	setNextID("992")
+	_ = cs.SendRequestAsync("A", core16.NewDataTransferRequest("a2"), func(conf ocpp.Response, err error) {
+		mu.Lock()
+		calls++
+		if dt, ok := conf.(*core16.DataTransferConfirmation); ok && dt != nil {
+			got = fmt.Sprint(dt.Data)
+		}
+		mu.Unlock()
+	})
+	wrote := waitFor(2*time.Second, func() bool {
+		return fake.CountWritten(func(t string, d []byte) bool { return t == "A" && callOnlyID(d) == 992 }) >= 1
+	})
+	n991 := fake.CountWritten(func(t string, d []byte) bool { return callOnlyID(d) == 991 })
+	_ = fake.Inject("A", []byte(`[3,"992",{"status":"Accepted","data":"r992"}]`))
+	waitFor(time.Second, func() bool { mu.Lock(); defer mu.Unlock(); return calls > 0 })
+	time.Sleep(20 * time.Millisecond)
+	within(2*time.Second, cs.Stop)
+	mu.Lock()
+	defer mu.Unlock()
+	if refused == 1 && strayCalls == 0 && wrote && n991 == 0 && calls == 1 && got == "r992" {
+		return []int64{1, 0}
+	}
+	return []int64{0, refused, int64(strayCalls), b2i(wrote), int64(n991), int64(calls), b2i(got == "r992")}
+}
+
 func gatedEval(in []int64) []int64 {
 	switch in[0] {
 	case 7:
@@ -1638,6 +2107,18 @@ func gatedEval(in []int64) []int64 {
 		return gatedNoCallbackAfterStop()
 	case 32:
 		return gatedManyTimeoutsPumpBusy()
+	case 33:
+		return gatedMalformedAnswer()
+	case 34:
+		return gatedSlowDisconnectHandler()
+	case 35:
+		return gatedBlockingCancelCallback()
+	case 36:
+		return gatedIdleSessionThenTimeout()
+	case 37:
+		return gatedTruncatedForeignReply()
+	case 38:
+		return gatedServerSendFromDisconnectHandler()
 	}
 	return []int64{-1}
 }
